@@ -84,6 +84,18 @@ def verify_keys(report, keys, standin=None, procs=8):
         "callee contracts marked trusted (builtins, re, os, pickle) are assumed, listed per evidence file")
     trusted = sorted(k for k, c in REG.items() if c.trusted)
     report.extra['trusted_contracts'] = trusted
+    # the frames the call sites rely on: declared modifies / lists cover what the real code writes (effect analysis)
+    from pv import obs_effects as E_
+    for o in E_.contract_frame_obligations(keys):
+        report.add(o)
+    assumed = sorted({'%s: %s (%s)' % (k, a, why) for k in keys if k in REG for a, why in REG[k].frame_assumed.items()})
+    if assumed:
+        report.extra['frame_assumptions'] = assumed
+        report.assume('frame assumptions (writes not counted by the frame check): ' + '; '.join(assumed))
+    if any('convert_leaf' in k for k in keys):
+        from pv import obs_classes as C_
+        for o in C_.leaf_dispatch_obligations():
+            report.add(o)
     return results
 
 
